@@ -39,6 +39,17 @@ Theorem c16_handout_after_exact_check : forall c tr s x,
   run c (init c) tr = Some s -> hand_ok (meth c) (ctl x (tl s)).
 Proof. exact c16_timeline. Qed.
 
+(* An idle client that the pool still owns after a get() was either not touched at all, or it was
+   not closed, its check (if the method has one) did not fail, it received exactly that check and
+   was handed out - so a closed client and a client whose check failed are not owned any more. *)
+Theorem c16_failed_check_discards : forall c tr s s' r x,
+  run c (init c) tr = Some s -> step c s LGet = Some (s', r) -> In x (idle s) -> owned s' x ->
+  (In x (idle s') /\ ctl x (tl s') = ctl x (tl s) /\ getc s' x = getc s x)
+  \/ (In x (out s')
+      /\ closed (getc s x) = false /\ (sql_of (meth c) = None \/ armq (getc s x) = FNone)
+      /\ ctl x (tl s') = THand true false :: map TMsg (rev (check_msgs (meth c))) ++ ctl x (tl s)).
+Proof. exact c16_get_touched. Qed.
+
 (* a client the pool has let go of (failed check, closed, taken, retain, shrink, close, surplus) is
    never idle, handed out or in the registry again *)
 Theorem c16_let_go_never_again : forall c tr s tr' s' y,
@@ -176,6 +187,7 @@ Print Assumptions c16_recycle_msgs_per_method.
 Print Assumptions c16_recycle_closed_rejects.
 Print Assumptions c16_recycle_verdict.
 Print Assumptions c16_handout_after_exact_check.
+Print Assumptions c16_failed_check_discards.
 Print Assumptions c16_let_go_never_again.
 Print Assumptions c16_cache_hit.
 Print Assumptions c16_cache_miss.
